@@ -380,8 +380,14 @@ class PythonToIrCompiler:
             assert var.lvalue
             lhs = self.builder.emit_load(var.value, var.ty)
             rhs = self.gen_expr(statement.value)
-            op = self.binop_map[type(statement.op)]
-            value = self.emit(ir.Binop(lhs, op, rhs, "augassign", var.ty))
+            op_typ = type(statement.op)
+            if op_typ is ast.FloorDiv and var.ty.is_signed:
+                value = self.gen_int_floor_div(lhs, rhs, var.ty)
+            else:
+                op = self.binop_map[op_typ]
+                value = self.emit(
+                    ir.Binop(lhs, op, rhs, "augassign", var.ty)
+                )
             self.emit(ir.Store(value, var.value))
         else:  # pragma: no cover
             self.not_impl(statement)
@@ -498,12 +504,35 @@ class PythonToIrCompiler:
         # TODO: assume type of a?
         ty = a.ty
         op_typ = type(expr.op)
+        if op_typ is ast.FloorDiv and ty.is_signed:
+            return self.gen_int_floor_div(a, b, ty)
         if op_typ in self.binop_map:
             op = self.binop_map[op_typ]
         else:
             self.not_impl(expr)
         value = self.builder.emit_binop(a, op, b, ty)
         return value
+
+    def gen_int_floor_div(self, a, b, ty):
+        """Compile integer 'a // b'.
+
+        Python rounds the quotient towards minus infinity, the IR division
+        truncates towards zero. Subtract one from the truncated quotient
+        when the remainder is non-zero and its sign differs from the sign
+        of the divisor.
+        """
+        emit = self.builder.emit_binop
+        q = emit(a, "/", b, ty)
+        r = emit(a, "-", emit(q, "*", b, ty), ty)
+        # Arithmetic shift by (bits - 1) gives -1 for negative values, else 0
+        sign_bit = self.builder.emit_const(ty.size * 8 - 1, ty)
+        zero = self.builder.emit_const(0, ty)
+        sr = emit(r, ">>", sign_bit, ty)
+        sb = emit(b, ">>", sign_bit, ty)
+        snr = emit(emit(zero, "-", r, ty), ">>", sign_bit, ty)
+        # -1 when (r != 0 and sign(r) != sign(b)), else 0:
+        adjust = emit(emit(sr, "^", sb, ty), "&", emit(sr, "|", snr, ty), ty)
+        return emit(q, "+", adjust, ty)
 
     def gen_call(self, expr):
         """Compile call-expression."""
